@@ -298,7 +298,7 @@ def _select_maxvol(vecs, core, k=10, transpose=False, use='mv'):
     
     dr = min(mat.shape[-1] + k, mat.shape[0]) - mat.shape[-1]
     
-    if dr == 0:
+    if dr <= 0:
         idx = np.arange(mat.shape[0])
     else:
         if use=='mv':
